@@ -126,3 +126,38 @@ def fresh_result_per_repetition(prog, run, rid, sfx=""):
     run.ob(rid, "each repetition runs the registry once on a TestResult constructed inside the repetition loop%s" % sfx, rt.site, ok and len(d_in) == 1,
            witness={"result": trname, "declared_in_loop": len(d_in)}, what="" if ok and len(d_in) == 1 else "counts of earlier repetitions leak into later summaries")
     return rt, loops
+
+
+def detector_fold(prog, f, values, answers=None, extra_env=None):
+    """Fold a MemoryLeakDetector method over a heap model with every environment call (underlying allocator, platform
+    realloc, leak table, report buffer, guard-byte helpers) answered from `answers` and logged as (name, args).
+    values: parameter name -> value. Returns (return value, log, evaluator)."""
+    from cpv.ceval import Evaluator, Unknown
+    DET = "MemoryLeakDetector"
+    answers = dict(answers or {})
+    log = []
+
+    def h(name, default=0):
+        return lambda *a_: (log.append((name, a_)), answers.get(name, default))[1]
+    calls = {"TestMemoryAllocator::alloc_memory": h("alloc", 70000), "PlatformSpecificRealloc": h("realloc", 70000), "TestMemoryAllocator::allocMemoryLeakNode": h("allocnode", 90000),
+             "TestMemoryAllocator::free_memory": h("free"), "TestMemoryAllocator::freeMemoryLeakNode": h("freenode"), "TestMemoryAllocator::hasBeenDestroyed": h("destroyed", 0),
+             "TestMemoryAllocator::actualAllocator": lambda *a_: a_[0] if a_ else 0,
+             "MemoryLeakDetectorTable::addNewNode": h("add"), "MemoryLeakDetectorTable::removeNode": h("remove", 6000), "MemoryLeakDetectorTable::retrieveNode": h("retrieve", 6000),
+             DET + "::addMemoryCorruptionInformation": h("guard"), DET + "::validMemoryCorruptionInformation": h("valid", 1), DET + "::matchingAllocation": h("matching", 1),
+             "PlatformSpecificMemset": h("memset")}
+    for g in prog.functions.values():
+        if g.qn.startswith("MemoryLeakOutputStringBuffer::report"):
+            calls[g.qn] = h(g.qn.split("::")[-1])
+    env = {"allocationSequenceNumber_": 41, "current_period_": 3, "current_allocation_stage_": 7, "doAllocationTypeChecking_": 1,
+           "@6000.memory_": 50000, "@6000.size_": 13, "@6000.allocator_": 9000}
+    env.update(values)
+    env.update(extra_env or {})
+    ev = Evaluator(prog, f, env=env, calls=calls)
+    ev.heap_mode = True
+    ev.pass_object = True
+    ev.inline = ({g.qn for g in prog.functions.values() if g.qn.startswith(DET + "::")} | {"MemoryLeakDetectorNode::init", "calculateVoidPointerAlignedSize"}) - set(calls)
+    ev.run_blocks(f.entry, max_steps=4000)
+    r = getattr(ev, "ret", None)
+    if isinstance(r, tuple) and r and r[0] == "unknown":
+        raise Unknown(r[1])
+    return r, log, ev
